@@ -23,7 +23,7 @@ const (
 	sigDeleteDeleted          = "C07/panic/delete-of-deleted-document-with-index"
 	sigInUnclosed             = "C07/query-panic/in-iterator-left-open"
 	sigBlobMatcher            = "C07/error-only-indexed/null-blob-value-matcher"
-	sigRelNe                  = "C07/rows-missing/relation-ne-filter-with-index"
+	sigRelNe                  = "C07/rows-missing/relation-filter-with-index"
 	sigJSONRootOnLeaves       = "C07/rows-missing/json-root-condition-matched-on-leaves"
 	sigCompositeArrayEmpty    = "C07/rows-missing/composite-index-multivalue-field-without-entry"
 	sigInNullUnique           = "C07/rows-missing/in-null-on-unique-index"
@@ -36,11 +36,13 @@ const (
 	sigJSONRootScalarMatcher  = "C07/error-only-indexed/json-root-condition-scalar-matcher"
 	sigIlikeInfixCase         = "C07/rows-missing/ilike-infix-pattern-case"
 	sigInEmptyList            = "C07/query-panic/in-empty-list"
+	sigJSONNlikeNonString     = "C07/rows-missing/json-nlike-non-string-value"
+	sigRangeNullOperand       = "C07/rows-missing/range-operator-null-operand"
 	sigJSONArrayDupCorrupted  = "C07/write/corrupted-index-json-array-duplicate-elements"
 )
 
 var switchSigs = []string{sigJSONNullPanic, sigAllEmptyArray, sigInDuplicates, sigNlikeNull, sigJSONPathScanErr,
-	sigOrBranch, sigInListOrder, sigDeleteDeleted, sigInUnclosed, sigBlobMatcher, sigRelNe, sigScanOrderLaterKey, sigJSONRootOnLeaves, sigCompositeArrayEmpty, sigCompositeArrayDup, sigInvertedJoinDropsConds, sigInNullUnique, sigShowDeletedOrder, sigPartialUpdate, sigPartialUpdatePanic, sigJSONNullDocMissing, sigJSONRootScalarMatcher, sigIlikeInfixCase, sigJSONArrayDupCorrupted, sigInEmptyList}
+	sigOrBranch, sigInListOrder, sigDeleteDeleted, sigInUnclosed, sigBlobMatcher, sigRelNe, sigScanOrderLaterKey, sigJSONRootOnLeaves, sigCompositeArrayEmpty, sigCompositeArrayDup, sigInvertedJoinDropsConds, sigInNullUnique, sigShowDeletedOrder, sigPartialUpdate, sigPartialUpdatePanic, sigJSONNullDocMissing, sigJSONRootScalarMatcher, sigIlikeInfixCase, sigJSONArrayDupCorrupted, sigInEmptyList, sigJSONNlikeNonString, sigRangeNullOperand}
 
 func pick[T any](t *rapid.T, label string, xs []T) T {
 	return xs[rapid.IntRange(0, len(xs)-1).Draw(t, label)]
@@ -52,7 +54,7 @@ func chance(t *rapid.T, label string, percent int) bool {
 
 // weighted field choice for index members
 var indexableWeighted = []string{
-	"s", "s", "s", "i", "i", "i", "i", "f", "f", "g", "b", "t", "t", "bl", "j", "j", "ai", "ai", "an", "as", "ab", "af", "owner",
+	"s", "s", "s", "i", "i", "i", "i", "f", "f", "g", "b", "t", "t", "bl", "j", "j", "j", "j", "ai", "ai", "an", "as", "ab", "af", "owner", "owner",
 }
 
 func uniqueable(f FieldDef) bool { return !f.Arr && f.Kind != "json" }
@@ -367,7 +369,7 @@ func isLike(op string) bool { return strings.HasSuffix(op, "like") }
 func (g *gen) fillCmp(leaf *F, kind, poolName string, ops []string) {
 	t := g.t
 	leaf.Cmp = pick(t, "cmp", ops)
-	if (leaf.Cmp == "_nlike" || leaf.Cmp == "_nilike") && g.avoid(sigNlikeNull) {
+	if (leaf.Cmp == "_nlike" || leaf.Cmp == "_nilike") && (g.avoid(sigNlikeNull) || (leaf.Field == "j" && g.avoid(sigJSONNlikeNonString))) {
 		leaf.Cmp = "_like"
 	}
 	switch {
@@ -403,7 +405,7 @@ func (g *gen) fillCmp(leaf *F, kind, poolName string, ops []string) {
 		leaf.Val = g.scalarConst(kind, poolName, true)
 	default:
 		// range operators: null operand only rarely
-		leaf.Val = g.scalarConst(kind, poolName, chance(t, "rangenull", 20))
+		leaf.Val = g.scalarConst(kind, poolName, chance(t, "rangenull", 20) && !g.avoid(sigRangeNullOperand))
 		if chance(t, "second", 25) {
 			leaf.Cmp2 = pick(t, "cmp2", []string{"_gt", "_ge", "_lt", "_le", "_ne"})
 			if leaf.Cmp2 == leaf.Cmp {
@@ -439,7 +441,7 @@ func (g *gen) leaf() *F {
 			if leaf.Cmp == "_in" && g.avoid(sigInUnclosed) {
 				leaf.Cmp = "_eq"
 			}
-			if leaf.Cmp == "_ne" && g.avoid(sigRelNe) {
+			if g.avoid(sigRelNe) {
 				leaf.Cmp = "_eq"
 			}
 			if leaf.Cmp == "_in" {
@@ -508,6 +510,7 @@ func (g *gen) leaf() *F {
 			}
 		}
 		if len(leaf.Path) == 0 && leaf.Arr == "" && (g.avoid(sigJSONRootOnLeaves) || g.avoid(sigJSONRootScalarMatcher)) && leaf.Cmp != "_eq" && leaf.Cmp != "_in" {
+			// only equality on the JSON value itself (JSON is never a later composite field in this mode)
 			leaf.Cmp, leaf.Cmp2, leaf.Val2 = "_eq", "", ""
 			if leaf.Val == "" {
 				leaf.Val = "1"
@@ -754,6 +757,12 @@ func (g *gen) sanitize(q *Query) {
 			if f.Cmp == "_in" && len(dedupe(f.Vals)) != len(f.Vals) {
 				trigger = true
 			}
+			return
+		}
+		if f.Op == "not" && len(f.Kids) == 1 && f.Kids[0].Op != "leaf" && g.avoid(sigOrBranch) {
+			// no negated compounds: keep the operand
+			*f = *f.Kids[0]
+			fix(f, underOr)
 			return
 		}
 		if f.Op == "or" && len(f.Kids) > 1 && g.avoid(sigOrBranch) {
